@@ -226,7 +226,11 @@ def make_killed(only, seqs):
     return fn
 
 
-def scale_fn(g):
+def scale_fn_every(g):
+    return scale_fn(g, step=1)
+
+
+def scale_fn(g, step=23):
     """18 / 40 recorded versions are archived, forgotten and restored; the restore is killed at points spread over its run."""
     nver = (18, 40)[g.choose("versions", 2)]
     git = "clean"
@@ -252,7 +256,7 @@ def scale_fn(g):
                 p0.cleanup()
             _L[cfg] = r0.get("lines", 0)
         L = _L[cfg]
-        k = 23 * (1 + g.choose("kill_block", max(1, L // 23)))        # every 23rd executed line
+        k = step * (1 + g.choose("kill_block", max(1, L // step)))        # every 23rd executed line (thorough: every line)
         out = crash.run_in_child(step, k, only)
         D = "%d recorded versions archived, cond-out removed, restore killed at line event %d/%d (%s)" % (nver, k, L, out.get("killed_at"))
         if "child_error" in out:
@@ -301,8 +305,11 @@ def spaces(tier):
                     "18 / 40 recorded versions archived, forgotten and restored; the restore is killed at every 23rd executed line of "
                     "cli/restore.py + execution/version_index.py", depth=2, goals=["restore of many versions killed midway"]))
     if tier == "thorough":
-        sp.append(Space("killed-all-lines", make_killed(None, SEQS[:2]),
-                        "run-ok / run-fail killed at every executed line of conductor.*", depth="marker", tiers=("thorough",)))
+        sp.append(Space("killed-all-lines", make_killed(None, SEQS),
+                        "every sequence, the last command killed at every executed line of conductor.*", depth="marker", tiers=("thorough",)))
+        sp.append(Space("scale-restore-of-many-versions-killed-every-line", scale_fn_every,
+                        "18 / 40 recorded versions archived, forgotten and restored; the restore is killed at every executed line of "
+                        "cli/restore.py + execution/version_index.py", depth=2, tiers=("thorough",)))
     return sp
 
 
